@@ -18,6 +18,7 @@
 import FastPasta.Model.View
 import FastPasta.Props.C03
 import FastPasta.Props.C09
+import FastPasta.Proofs.WordsSrcTie
 namespace FastPasta
 namespace C19
 open C03
@@ -119,6 +120,21 @@ theorem lane_status_fatal_iff (w : Bytes) :
   · intro h
     have hf : ((w.take 7).map (·.toNat)).any byteAnyFatal = true := by simpa [List.any_eq_true] using h
     simp only [hf, ↓reduceIte]
+
+/-! ### the attribute predicates of the views are the source's (translated on this run, `Spec/WordsSrcGen.lean`) -/
+theorem lane_status_src (w : Bytes) :
+    SrcWords.ddw0_tdt_lane_status_any_fatal w = ((w.take 7).map (·.toNat)).any byteAnyFatal ∧
+    SrcWords.ddw0_tdt_lane_status_any_error w = ((w.take 7).map (·.toNat)).any byteAnyError ∧
+    SrcWords.ddw0_tdt_lane_status_any_warning w = ((w.take 7).map (·.toNat)).any byteAnyWarning :=
+  ⟨SrcTie.lane_status_any_fatal_eq w, SrcTie.lane_status_any_error_eq w, SrcTie.lane_status_any_warning_eq w⟩
+
+theorem word_attr_bits_src (w : Bytes) :
+    SrcWords.tdh_soc_trigger w = (bAt w 1 / 2 % 2 == 1) ∧ SrcWords.tdh_internal_trigger w = (bAt w 1 / 16 % 2 == 1) ∧
+    SrcWords.tdh_physics_trigger w = (bAt w 0 / 16 % 2 == 1) ∧
+    SrcWords.tdh_continuation w = (tdhContinuation w == 1) ∧ SrcWords.tdh_no_data w = (tdhNoData w == 1) ∧
+    SrcWords.tdt_packet_done w = tdtPacketDone w :=
+  ⟨(SrcTie.tdh_trigger_bits_eq w).1, (SrcTie.tdh_trigger_bits_eq w).2.1, (SrcTie.tdh_trigger_bits_eq w).2.2,
+   SrcTie.tdh_continuation_eq w, SrcTie.tdh_no_data_eq w, SrcTie.tdt_packet_done_eq w⟩
 
 /-! ### agreement with the checker on conforming data -/
 
